@@ -16,15 +16,16 @@ func VerifNewParser(r io.Reader) *VerifParser {
 	return &VerifParser{p: newParser(r)}
 }
 
-// ReadMessage returns a copy of the next frame, or the error that ends the stream.
+// ReadMessage returns the next frame exactly as the parser hands it over (no
+// copy: the session keeps frames in its inbound channel and in its stash while
+// later bytes arrive, so the harness holds them the same way), or the error
+// that ends the stream.
 func (v *VerifParser) ReadMessage() ([]byte, error) {
 	buf, err := v.p.ReadMessage()
 	if err != nil {
 		return nil, err
 	}
-	out := make([]byte, buf.Len())
-	copy(out, buf.Bytes())
-	return out, nil
+	return buf.Bytes(), nil
 }
 
 // VerifBufferState reports len(buffer), cap(buffer), len(bigBuffer) of the parser.
@@ -36,16 +37,22 @@ func (v *VerifParser) VerifBufferState() (int, int, int) {
 func VerifReadLoop(r io.Reader) [][]byte {
 	msgIn := make(chan fixIn)
 	done := make(chan struct{})
-	var frames [][]byte
+	var held []fixIn
 	go func() {
 		defer close(done)
 		for m := range msgIn {
-			b := make([]byte, m.bytes.Len())
-			copy(b, m.bytes.Bytes())
-			frames = append(frames, b)
+			held = append(held, m)
 		}
 	}()
 	readLoop(newParser(r), msgIn, nullLog{})
 	<-done
+	// The frames are read only now, after the whole stream went through the
+	// parser: a queued frame has to stay what it was when it was delivered.
+	frames := make([][]byte, 0, len(held))
+	for _, m := range held {
+		b := make([]byte, m.bytes.Len())
+		copy(b, m.bytes.Bytes())
+		frames = append(frames, b)
+	}
 	return frames
 }
